@@ -2,6 +2,7 @@
 //! generators with planted markers, the reference model, snapshotters of
 //! the live / persisted / replayed account, the operation generator and
 //! executor, and account set-up helpers.
+pub mod index;
 pub mod logs;
 pub mod model;
 pub mod ops;
